@@ -581,7 +581,8 @@ size_t table_val(int idx, const Ctx &c, uint8_t r)
 }
 inline bool is_tab(uint8_t c) { return c >= TAB_BASE; }
 inline int tab_idx(uint8_t c) { return (c - TAB_BASE) % NTAB; }
-size_t decode_sz(uint8_t b) { return b < 230 ? SZ_SMALL[b & 3] : SZ_BIG[b & 1]; }
+// element size: mostly the classic small ones, sometimes any size up to 100, rarely the huge ones
+size_t decode_sz(uint8_t b) { return b < 128 ? SZ_SMALL[b & 3] : b < 230 ? (size_t)(b - 127) : SZ_BIG[b & 1]; }
 
 // canonical implementation state for G1 (identification only)
 std::string peek_state()
